@@ -504,14 +504,14 @@ func fixedHistories() [][]tStep {
 		{Q(50), I(2500), G, N(2, 5000), Q(50)},      //
 		{T(20), S, I(300), N(4, 50), T(50)},         // ... on a stopped clock
 		{T(120), N(3, 50), I(300), N(2, 50), Q(50)}, // ... on a running clock
-		{M(3), Q(50)},                               // deadlines 10 ms and 1.5 s handed out together on a clock that never ran
-		{T(20), S, M(4), T(20)},                     // ... on a stopped clock
-		{T(20), I(1300), G, M(2), Q(50)},            // ... on a clock that ran out
-		{T(120), M(3)},                              // ... on a running clock
-		{T(20), T(50), T(120)},                      // back to back
-		{T(20), I(5), T(20), Q(50)},                 // short idle
-		{T(20), I(1300), G, T(20), Q(5000)},         // idle longer than timeout + slop: clock gone, restarted on demand
-		{Q(50), I(1300), G, Q(50), T(50)},           // quick match after the clock has stopped with a stale time value
+		{M(3), Q(50)},                       // deadlines 10 ms and 1.5 s handed out together on a clock that never ran
+		{T(20), S, M(4), T(20)},             // ... on a stopped clock
+		{T(20), I(1300), G, M(2), Q(50)},    // ... on a clock that ran out
+		{T(120), M(3)},                      // ... on a running clock
+		{T(20), T(50), T(120)},              // back to back
+		{T(20), I(5), T(20), Q(50)},         // short idle
+		{T(20), I(1300), G, T(20), Q(5000)}, // idle longer than timeout + slop: clock gone, restarted on demand
+		{Q(50), I(1300), G, Q(50), T(50)},   // quick match after the clock has stopped with a stale time value
 		{T(50), I(2500), G, Q(50), I(300), T(20)},
 		{T(20), S, T(20), Q(50)},     // explicit stop, then restart
 		{S, S, T(50)},                // stop with nothing running
